@@ -517,6 +517,9 @@ impl TypeChecker {
                     self.check_constraints(*span, ctx, target_ty)?;
                 } else {
                     self.unify(*span, ctx, expression_ty, target_ty)?;
+                    // Unifying a type with itself checks nothing - `s -= s` has to be checked too.
+                    self.check_constraints(*span, ctx, expression_ty)?;
+                    self.check_constraints(*span, ctx, target_ty)?;
                 }
                 self.unify_option(*span, ctx, expression_ret, target_ret)
             }
